@@ -807,6 +807,11 @@ impl Driver {
                 Some(self.gen_modify(&st))
             } else {
                 // change the environment now and then: marker types and attributes are chain state
+                if self.chance(0.1) {
+                    let dn = self.pick(&["base", "cv1", "cv2", "q1", "q2"]).to_string();
+                    let k = self.pick(&["restricted", "coin", "none"]).to_string();
+                    self.env.marker.insert(dn, k);
+                }
                 if self.chance(0.3) {
                     let a = self.pick(&EVERYONE).to_string();
                     let e = self.env.attrs.entry(a).or_default();
